@@ -28,8 +28,9 @@ SHARDS = {"quick": 8, "thorough": 16}
 
 # ---- known findings: ONE switch per class.  While an entry is open its input class is excluded *in the generators*
 # (run() never looks at these, so the committed probe replays keep failing until /repo is fixed).
-# VERIF_C07_NO_EXCLUSIONS=1 switches every exclusion off (used to validate proposed patches on a scratch copy).
-_NOEXCL = os.environ.get("VERIF_C07_NO_EXCLUSIONS", "") == "1"
+# VERIF_C07_NO_EXCLUSIONS=1 switches every exclusion off, VERIF_C07_NO_EXCLUSIONS=<id>,<id> only the named ones (used to
+# validate proposed patches on a scratch copy).
+_NOEXCL = [x for x in os.environ.get("VERIF_C07_NO_EXCLUSIONS", "").split(",") if x]
 F_RPEC = "C07-recombination-pec-null"        # recombination_pec catches (FileNotFoundError, KeyError): never a null rate
 F_BCXNULL = "C07-beam-cx-pec-null"           # beam_cx_pec: NullBeamCXPEC() built without donor_metastable -> TypeError
 F_SINGLE = "C07-single-point-axis"           # 1-knot axis: construction fails (all log-log table rates; beam 't' axis)
@@ -39,7 +40,7 @@ F_TCXISO = "C07-thermal-cx-pec-isotope-wavelength"   # thermal_cx_pec converts w
 
 
 def _open(fid):
-    return (not _NOEXCL) and is_open(fid)
+    return "1" not in _NOEXCL and fid not in _NOEXCL and is_open(fid)
 
 
 RULE = ("One case = one fresh temporary repository written through the update_* functions (trusted by C06), one accessor, one "
@@ -764,7 +765,7 @@ _decoy = st.one_of(st.none(), st.sampled_from([2.0, 0.5, 3.0, 10.0]))
 @st.composite
 def _wl_pair(draw, name):
     """(wl_el, wl_iso): mostly available; every presence pattern occurs."""
-    pat = draw(st.sampled_from(["both", "both", "both", "el", "iso", "none", "same"])) if _is_iso(name) else \
+    pat = draw(st.sampled_from(["both", "both", "both", "el", "el", "iso", "none", "same"])) if _is_iso(name) else \
         draw(st.sampled_from(["el", "el", "el", "el", "none"]))
     a, b = draw(_lam), draw(_lam)
     if pat == "same":
@@ -813,7 +814,7 @@ def beam_case(draw, acc=None, flags=None, single=None):
     acc = acc or draw(st.sampled_from(BEAM_ACC))
     fl = flags or draw(_flags)
     c = {"k": "beam", "acc": acc, "flags": fl}
-    c["beam"] = draw(st.sampled_from(BEAMS))
+    c["beam"] = draw(st.sampled_from(BEAMS + ["hydrogen"]))
     c["target"] = _species(draw)
     c["tq"] = draw(st.integers(0, SP[c["target"]].atomic_number))
     c["ms"] = draw(st.integers(1, 3))
@@ -852,7 +853,7 @@ def _bcx_data(draw, single):
 def beamcx_case(draw, flags=None, single=None):
     fl = flags or draw(_flags)
     c = {"k": "beamcx", "flags": fl}
-    c["donor"] = draw(st.sampled_from(BEAMS))
+    c["donor"] = draw(st.sampled_from(BEAMS + ["hydrogen", "hydrogen"]))
     c["recv"] = _species(draw)
     c["rq"] = draw(st.integers(1, SP[c["recv"]].atomic_number))
     c["tr"] = draw(_trs)
@@ -958,9 +959,9 @@ def matrix_cases(tier):
 
 SUBCHECKS = {
     "matrix": Enum(matrix_cases, run_any),
-    "tab": Given(tab_case, run_any, quick=360, thorough=14000),
-    "beam": Given(beam_case, run_any, quick=160, thorough=6000),
-    "beamcx": Given(beamcx_case, run_any, quick=120, thorough=4000),
-    "wl": Given(wl_case, run_any, quick=120, thorough=3000),
-    "missing": Given(missing_case, run_any, quick=240, thorough=8000),
+    "tab": Given(tab_case, run_any, quick=1000, thorough=40000),
+    "beam": Given(beam_case, run_any, quick=480, thorough=16000),
+    "beamcx": Given(beamcx_case, run_any, quick=320, thorough=12000),
+    "wl": Given(wl_case, run_any, quick=240, thorough=6000),
+    "missing": Given(missing_case, run_any, quick=600, thorough=16000),
 }
